@@ -120,11 +120,16 @@ def alphabet(n, names):
     ops = []
     for nm in names:
         ops.append(("append", nm))
-    for ix in (0, 1, "len", -1):
+    for ix in (0, 1, "len", -1, "-len-1", "-len-2", "len+2"):
         for nm in ("A", ""):
             ops.append(("insert", ix, nm))
     for ix in (0, -1, "last"):
         ops.append(("del_ix", ix))
+    if n >= 2:
+        # the same CurveItem object taken out and put back at another position
+        ops.append(("move", "last", 0))
+        ops.append(("move", 0, "last"))
+        ops.append(("move", "last", 1))
     for p in range(n):
         ops.append(("del_mn", p))
     ops.append(("del_mn", "absent"))
@@ -144,6 +149,10 @@ def alphabet(n, names):
         ops.append(("set_item", p))
     ops.append(("set_item", "new"))
     ops.append(("set_item", "mismatch"))
+    # item assignment under a key that differs from an existing session name only by letter case: keys() holds no
+    # such key, so it is a new curve (appended), whatever comparison mode the section was read with
+    for p in range(n):
+        ops.append(("set_item_case", p))
     for extra in (0, 1, 2):
         ops.append(("set_data", extra, None, False))
         ops.append(("data_eq", extra))
@@ -164,6 +173,12 @@ def res_ix(ix, n):
         return n
     if ix == "last":
         return n - 1
+    if ix == "-len-1":
+        return -n - 1
+    if ix == "-len-2":
+        return -n - 2
+    if ix == "len+2":
+        return n + 2
     return ix
 
 
@@ -197,6 +212,9 @@ def apply_model(model, op, step, keys):
         m.append(rec(op[1], step))
     elif kind == "insert":
         m.insert(res_ix(op[1], n), rec(op[2], step))
+    elif kind == "move":
+        r = m.pop(res_ix(op[1], n))
+        m.insert(res_ix(op[2], n - 1) if op[2] != "last" else n - 1, r)
     elif kind == "del_ix":
         ix = res_ix(op[1], n)
         if not (-n <= ix < n):
@@ -247,6 +265,14 @@ def apply_model(model, op, step, keys):
             # a fresh CurveItem(name) has session mnemonic == useful name; the
             # assignment is only well-formed when that equals the key
             m[first(key)] = rec(_item_name_for_key(key), step, unit="IU", value="IV", descr="item")
+    elif kind == "set_item_case":
+        key = keys[op[1]].swapcase()
+        if key == keys[op[1]]:
+            raise Undefined()
+        if key in keys:
+            m[first(key)] = rec(key, step, unit="IU", value="IV", descr="item")
+        else:
+            m.append(rec(key, step, unit="IU", value="IV", descr="item"))
     elif kind in ("set_data", "data_eq"):
         extra = op[1]
         names_variant = op[2] if kind == "set_data" else None
@@ -301,6 +327,11 @@ def apply_impl(las, op, step):
         las.append_curve(op[1], arr_for(step))
     elif kind == "insert":
         las.insert_curve(res_ix(op[1], n), op[2], arr_for(step))
+    elif kind == "move":
+        src = res_ix(op[1], n)
+        item = list(las.curves)[src]
+        las.delete_curve(ix=src)
+        las.insert_curve_item(res_ix(op[2], n - 1) if op[2] != "last" else n - 1, item)
     elif kind == "del_ix":
         las.delete_curve(ix=res_ix(op[1], n))
     elif kind == "del_mn":
@@ -330,6 +361,11 @@ def apply_impl(las, op, step):
         else:
             key = keys[op[1]]
             las[key] = CurveItem(_item_name_for_key(key), "IU", "IV", "item", arr_for(step))
+    elif kind == "set_item_case":
+        key = keys[op[1]].swapcase()
+        if key == keys[op[1]]:
+            raise Undefined()
+        las[key] = CurveItem(key, "IU", "IV", "item", arr_for(step))
     elif kind == "set_data":
         extra, variant, truncate = op[1], op[2], op[3]
         width = n + extra
